@@ -12,4 +12,4 @@ def run(ctx):
     ctx.assumptions += ["writers take at most k bytes per Write and optionally fail; Seek targets stay within len+2 in the graph, +-20 in random traces"]
 
 def replay(ctx, rp):
-    return vlib.generic_replay(ctx, rp)
+    return vlib.replay_any(ctx, rp)
